@@ -80,7 +80,11 @@ def plane_phasor(plane, wavelength):
         return None
     A = np.broadcast_to(amp, S)
     O = np.broadcast_to(opd, S)
-    return A * np.exp(2j * np.pi * O / wavelength) * g, S
+    # (in double precision whatever the type the plane's arrays are held in: a float32 OPD map is a set of numbers, not an
+    # instruction to evaluate the phasor in single precision)
+    A = np.asarray(A, dtype=complex if np.iscomplexobj(A) else float)
+    O = np.asarray(O, dtype=float)
+    return A * np.exp(2j * np.pi * O / float(wavelength)) * g, S
 
 
 def multiply_before(ctx, args, kwargs):
@@ -288,6 +292,14 @@ def make_plane(ctx, lentil, rng, shape, wl, cls=None, pixelscale=None, force=Non
         kw['mask'] = segs.astype(float)
     if cls is lentil.Pupil:
         kw['focal_length'] = float(rng.uniform(0.5, 20))
+    # arrays in single precision (the usual FITS type): same numbers, same plane, same double-precision phasor
+    if rng.random() < 0.15:
+        if isinstance(amp, np.ndarray):
+            amp = amp.astype(np.float32)
+        if isinstance(opd, np.ndarray) and rng.random() < 0.7:
+            opd = opd.astype(np.float32)
+        elif not isinstance(opd, np.ndarray):
+            opd = float(np.float32(opd))
     # arrays in any memory layout (Fortran order, strided views): same values, same plane
     if 'mask' in kw:
         kw['mask'] = gen.layout(rng, kw['mask'], 0.2)
